@@ -2,7 +2,7 @@
    Gen/RoutesTable.v is regenerated from the live application object of /repo on every run:
    one row per (URL rule, HTTP method), with the guards read from the decorator closures, a
    conservative state-changing bit and the role the documentation assigns to that handler. *)
-From Verif Require Import Base.Tactics Model.AuthModel Proofs.AuthProofs Gen.RoutesTable.
+From Verif Require Import Base.Tactics Base.ZList Model.AuthModel Proofs.AuthProofs Gen.RoutesTable Model.UserModel Proofs.UserProofs.
 
 (* no forgotten route: for EVERY row of the generated table and EVERY role, a state-changing
    method whose guards let the role through is one the role is entitled to (finite: the bound is
@@ -73,3 +73,34 @@ Proof.
       cbn in H; try discriminate; repeat split; reflexivity.
   - vm_compute. reflexivity.
 Qed.
+
+(* ---- authorisation decided inside a method body: POST /api/users/<pk> (EditUser.post), which the decorator table cannot
+   see.  after u q = the row the database holds once the request has been answered *)
+
+(* nobody but an administrator changes another account: every field of the row is as before *)
+Theorem C15_edit_other_needs_admin :
+  forall u q, q_admin q = false -> q_target q <> q_caller q -> after u q = u.
+Proof. exact edit_other_needs_admin. Qed.
+Print Assumptions C15_edit_other_needs_admin.
+
+(* an account editing itself cannot raise its own privileges *)
+Theorem C15_self_edit_no_escalation :
+  forall u q, q_admin q = false ->
+  u_groups (after u q) = u_groups u /\ u_name (after u q) = u_name u /\ u_must (after u q) = u_must u.
+Proof. exact self_edit_no_escalation. Qed.
+Print Assumptions C15_self_edit_no_escalation.
+
+(* a password is only replaced by one that was typed twice *)
+Theorem C15_password_needs_confirmation :
+  forall u q, u_pw (after u q) <> u_pw u -> q_pw q = Some (q_confirm q) /\ u_pw (after u q) = q_confirm q.
+Proof. exact password_needs_confirmation. Qed.
+Print Assumptions C15_password_needs_confirmation.
+
+Example C15_user_example :
+  let u := {| u_name := 1; u_must := false; u_email := 2; u_pw := 3; u_groups := 1 |} in
+  let q := {| q_admin := false; q_caller := 7; q_target := 7; q_name := 9; q_must := true; q_email := 5; q_pw := Some 4;
+              q_confirm := 4; q_groups := 7 |} in
+  after u q = {| u_name := 1; u_must := false; u_email := 5; u_pw := 4; u_groups := 1 |} /\
+  after u {| q_admin := false; q_caller := 7; q_target := 8; q_name := 9; q_must := true; q_email := 5; q_pw := Some 4;
+             q_confirm := 4; q_groups := 7 |} = u.
+Proof. vm_compute. split; reflexivity. Qed.
